@@ -153,4 +153,44 @@ CLAIMED["C10"] = {
                  "correspondence + spec predicate on implementation traces",
 }
 
+CLAIMED["C18"] = {
+    "design_ref": "DESIGN.md §4 C18, notes/C18.md",
+    "text": "Coq theorems over a Flocq binary64 model of sweep's LinearFeeFunction and sweep-tx arithmetic. For ANY "
+            "non-negative starting rate, relay fee, estimator answers and conf targets, the offered fee rate never "
+            "exceeds min(budget/size, MaxFeeRate) and never decreases over any Increment/IncreaseFeeRate sequence; it is "
+            "on the ceiling at deadline-1 (also after skipped heights); it starts >= relay fee when floor <= ceiling, and "
+            "a start above the ceiling is capped to it. Every tx passing createAndCheckTx has fee = in-out <= budget, "
+            "spends exactly the requested inputs and has no change below dust. The published (rate, tx) sequence of the "
+            "publisher model is within bounds for any estimator answers, mempool verdicts and heights. BudgetInputSet "
+            "top-up covers the budget. IEEE rounding monotonicity is proved, not assumed. Model tied float-for-float to "
+            "NewLinearFeeFunction/feeRateAtPosition/NewSatPerKWeight, createAndCheckTx, the real TxPublisher and "
+            "BudgetInputSet. Finding C18-F1 (start above ceiling => published above MaxFeeRate, then decreasing) was "
+            "found by this check and repaired in /repo (1567bc7).",
+    "note": "Trusted: Coq kernel, Flocq (stdlib real-number axioms ClassicalDedekindReals.sig_not_dec/sig_forall_dec, "
+            "Classical_Prop.classic, functional_extensionality_dep), harness and python driver; weight estimator and "
+            "dust limit are model inputs; publisher goroutines, aux sweeper and locktimes are not modelled. Domain "
+            "rates <= 2^30 sat/kw, widths < 2^32, budgets <= 2^62.",
+    "technique": "Coq proof (invariant by induction over op/block/verdict sequences; Flocq round_le for float "
+                 "monotonicity) + float-for-float differential correspondence (vm_compute) + predicate on implementation traces",
+}
+CLAIMED["C08"] = {
+    "design_ref": "DESIGN.md §4 C08, notes/C08.md",
+    "text": "partial by nature (goroutines): the forwarder's logic is an executable Coq state machine (per-circuit "
+            "state: incoming HTLC, FwdFilter bit, circuit-map state, packet in flight, outgoing twin, mailbox response; "
+            "per-channel ledger; events incl. the CommitCircuits Add/Drop/Fail table, pipelined settles, locked-in fails, "
+            "one-response arbitration, whole-node restart). Proved for every event order: an incoming HTLC is settled "
+            "only with a preimage received on its outgoing twin that hashes to the payment hash; it is failed back only "
+            "if the twin was never committed or is irrevocably removed, and a signed fail-back is final; at quiescence "
+            "hops settled together, nothing dangles (NumPending = NumOpen = 0), forwarder total = initial + fees of "
+            "succeeded forwards, sender debits = receiver credits + fees. Tie: trace recogniser (vm_compute, SHA-256) "
+            "over events observed on the real three-hop fixture (wire interceptors, HtlcNotifier, CircuitMap proxy) + "
+            "model-independent predicate on the real wire trace and quiescent end state of all four channel ends.",
+    "note": "Goroutine scheduling, onion processing, mailbox timers, transport and the commitment dance are exercised "
+            "by the harness only. Restart paths are proved on the model but no faults are injected on the real code "
+            "yet. -race off by default (fixture shares one mockObfuscator across links). Trusted: Coq kernel, harness, "
+            "python predicate.",
+    "technique": "Coq proof (per-circuit and ledger invariants over all event sequences) + trace recogniser on the real "
+                 "three-hop fixture + implementation-side quiescence predicate",
+}
+
 NOT_CLAIMED = {}
